@@ -14,8 +14,9 @@ def op(o, sl=0, sc=0, n="", k=0, b=()):
 
 def random_histories(ctx, count, maxlen):
     r = ctx.rng
-    names = ["x", "y", "z", "value", "$", "_a1"]
-    frag = [[97], [10], [13], [13, 10], [32], [195, 169], [9], [98, 99]]
+    names = ["x", "y", "z", "value", "$", "_a1"] + ["n%d" % k for k in range(14)]       # > 8, > 16 distinct names
+    frag = [[97], [10], [13], [13, 10], [32], [195, 169], [9], [98, 99], [226, 128, 168], [226, 128, 169], [240, 159, 152, 128],
+            [10] * 33, [97] * 600, [13, 10] * 40]    # U+2028/U+2029 are NOT line breaks here; long runs cross 32 / 512 thresholds
     big = [0, 1, 2, 7, 31, 32, 1023, 1024, 40000, 2**20, 2**29]  # TLC integers are 32-bit
     out = []
     for i in range(count):
@@ -34,9 +35,11 @@ def random_histories(ctx, count, maxlen):
                 for _ in range(r.randint(0, 6)):
                     s += r.choice(frag)
                 ops.append(op("str", b=s))
-            else:
+            elif c < 0.97:
                 ops.append(op("line"))
-        out.append(dict(id="rnd%d" % i, ops=ops, every=True))
+            else:
+                ops += [op("line")] * r.choice([31, 32, 33, 64, 100])      # a long run of unmapped generated lines
+        out.append(dict(id="rnd%d" % i, ops=ops, every=len(ops) < 60))
     return out
 
 
